@@ -210,9 +210,29 @@ fn words<W: BitArray>(l: &[u128]) -> Vec<W> {
     l.iter().map(|&w| from_u128(w)).collect()
 }
 
+/// protocol values must fit the type they are converted to (no silent truncation)
+fn fits(x: u128, bits: u32) -> bool {
+    bits >= 128 || x < (1u128 << bits)
+}
+fn all_fit(l: &[u128], bits: u32) -> bool {
+    l.iter().all(|&x| fits(x, bits))
+}
+
 fn run_hist<C: AnsCombo>(segs: &[Vec<&str>]) -> String {
     type Coder<C> = AnsCoder<<C as AnsCombo>::W, <C as AnsCombo>::S>;
+    let wbits = 8 * std::mem::size_of::<C::W>() as u32;
+    let sbits = 8 * std::mem::size_of::<C::S>() as u32;
     let init = &segs[1];
+    // reject values that do not fit the word / state type
+    match init.as_slice() {
+        ["compressed", ws] | ["binary", ws] => {
+            if !parse_list(ws).map(|l| all_fit(&l, wbits)).unwrap_or(false) { return "bad-op".into(); }
+        }
+        ["raw", ws, st] => {
+            if !parse_list(ws).map(|l| all_fit(&l, wbits)).unwrap_or(false) || !parse_hex(st).map(|x| fits(x, sbits)).unwrap_or(false) { return "bad-op".into(); }
+        }
+        _ => {}
+    }
     let mut outs: Vec<String> = Vec::new();
     let mut coder: Coder<C> = match init.as_slice() {
         ["new"] => AnsCoder::new(),
@@ -238,13 +258,12 @@ fn run_hist<C: AnsCombo>(segs: &[Vec<&str>]) -> String {
     for seg in &segs[2..] {
         let r = guarded(|| -> Option<String> {
             Some(match seg.as_slice() {
-                ["enc", b, p, cum, pr] => C::enc(
-                    &mut coder,
-                    parse_hex(b)? as u32,
-                    parse_hex(p)? as u32,
-                    Some((parse_hex(cum)?, parse_hex(pr)?)),
-                )
-                .unwrap_or("unsupported".into()),
+                ["enc", b, p, cum, pr] => {
+                    let bb = parse_hex(b)? as u32;
+                    if !fits(parse_hex(cum)?, bb) || !fits(parse_hex(pr)?, bb) || parse_hex(pr)? == 0 { return None; }
+                    C::enc(&mut coder, bb, parse_hex(p)? as u32, Some((parse_hex(cum)?, parse_hex(pr)?)))
+                        .unwrap_or("unsupported".into())
+                }
                 ["encnone", b, p] => {
                     C::enc(&mut coder, parse_hex(b)? as u32, parse_hex(p)? as u32, None)
                         .unwrap_or("unsupported".into())
@@ -303,14 +322,44 @@ fn run_hist<C: AnsCombo>(segs: &[Vec<&str>]) -> String {
                     coder = coder.clone();
                     "ok".into()
                 }
+                ["clear"] => {
+                    coder.clear();
+                    "ok".into()
+                }
+                ["intovec"] => {
+                    let v: Vec<C::W> = coder.clone().into();
+                    show_list(v.iter().map(|&w| to_u128(w)))
+                }
+                ["maybefull"] => format!("{}", <Coder<C> as Code>::encoder_maybe_full::<1>(&coder)),
+                ["mexh"] => format!("{}", <Coder<C> as Code>::decoder_maybe_exhausted::<1>(&coder)),
+                ["asdec", b, p, cdf, n] => {
+                    // a temporary decoder view: decodes on the view, the original stays as it is
+                    let mut view = coder.as_decoder();
+                    let mut outv = Vec::new();
+                    for _ in 0..parse_hex(n)? {
+                        outv.push(C::dec(&mut view, parse_hex(b)? as u32, parse_hex(p)? as u32, &parse_list(cdf)?).unwrap_or("unsupported".into()));
+                    }
+                    if outv.is_empty() { "-".into() } else { outv.join(",") }
+                }
+                ["intodec", b, p, cdf, n] => {
+                    let mut d = coder.clone().into_decoder();
+                    let mut outv = Vec::new();
+                    for _ in 0..parse_hex(n)? {
+                        outv.push(C::dec(&mut d, parse_hex(b)? as u32, parse_hex(p)? as u32, &parse_list(cdf)?).unwrap_or("unsupported".into()));
+                    }
+                    if outv.is_empty() { "-".into() } else { outv.join(",") }
+                }
                 ["pos"] => {
                     let (l, s) = coder.pos();
                     format!("{} {}", hex(l as u128), hex(to_u128(s)))
                 }
-                ["seek", l, s] => match coder.seek((parse_hex(l)? as usize, from_u128(parse_hex(s)?))) {
-                    Ok(()) => "ok".into(),
-                    Err(()) => "err".into(),
-                },
+                ["seek", l, s] => {
+                    if !fits(parse_hex(s)?, sbits) || parse_hex(l)? > usize::MAX as u128 { return None; }
+                    match coder.seek((parse_hex(l)? as usize, from_u128(parse_hex(s)?))) {
+                        Ok(()) => "ok".into(),
+                        Err(()) => "err".into(),
+                    }
+                }
                 _ => return None,
             })
         });
@@ -381,6 +430,21 @@ fn run_cursor<C: AnsCombo>(segs: &[Vec<&str>], decoder: bool) -> String {
                     Err(CoderError::Frontend(())) => "err".into(),
                 },
                 ["nw"] => hex(coder.num_words() as u128),
+                ["export"] => match coder.clone().into_compressed() {
+                    Ok(c) => {
+                        let l = c.pos();
+                        show_list(c.buf()[..l].iter().map(|&w| to_u128(w)))
+                    }
+                    Err(_) => "full".into(),
+                },
+                ["intob"] => match coder.clone().into_binary() {
+                    Ok(c) => {
+                        let l = c.pos();
+                        show_list(c.buf()[..l].iter().map(|&w| to_u128(w)))
+                    }
+                    Err(Some(_)) => "full".into(),
+                    Err(None) => "err".into(),
+                },
                 _ => return None,
             })
         });
@@ -478,6 +542,7 @@ fn run_sweep<C: AnsCombo>(head: &[&str], w: u32, s: u32) -> String {
 fn run_glue<C: AnsCombo>(kind: &str, segs: &[Vec<&str>]) -> String {
     use constriction::backends::Reverse;
     let l = match segs.get(1).and_then(|s| s.first()).and_then(|s| parse_list(s)) { Some(l) => l, None => return "bad-op".into() };
+    if !all_fit(&l, 8 * std::mem::size_of::<C::W>() as u32) { return "bad-op".into(); }
     let data = words::<C::W>(&l);
     let mut outs: Vec<String> = vec!["ok".into()];
     macro_rules! ops {
@@ -541,6 +606,25 @@ fn run_glue<C: AnsCombo>(kind: &str, segs: &[Vec<&str>]) -> String {
             let mut coder = AnsCoder::<C::W, C::S, _>::from_binary_slice(&data);
             ops!(coder, false);
         }
+        "anss" => {
+            let mut coder = match AnsCoder::<C::W, C::S, _>::from_compressed_slice(&data) {
+                Ok(c) => c,
+                Err(()) => return "err".into(),
+            };
+            ops!(coder, false);
+        }
+        "ansrb" => {
+            let mut coder: AnsCoder<C::W, C::S, Reverse<Cursor<C::W, Vec<C::W>>>> = AnsCoder::from_reversed_binary(data);
+            ops!(coder, false);
+        }
+        "ansib" => {
+            let it = data.into_iter().map(Ok::<C::W, std::convert::Infallible>);
+            let mut coder = match AnsCoder::<C::W, C::S, _>::from_reversed_binary_iter(it) {
+                Ok(c) => c,
+                Err(_) => return "err".into(),
+            };
+            ops!(coder, false);
+        }
         _ => return "bad-op".into(),
     }
     outs.join(" | ")
@@ -563,7 +647,7 @@ pub fn run(segs: &[Vec<&str>]) -> String {
                 "ansc" if head.len() == 4 => run_cursor::<$C>(segs, false),
                 "ansd" if head.len() == 3 && segs.len() >= 2 => run_cursor::<$C>(segs, true),
                 "ansspec" if head.len() == 3 => run_spec::<$C>(segs),
-                "ansr" | "ansi" | "ansb" if head.len() == 3 && segs.len() >= 2 => run_glue::<$C>(kind, segs),
+                "ansr" | "ansi" | "ansb" | "anss" | "ansrb" | "ansib" if head.len() == 3 && segs.len() >= 2 => run_glue::<$C>(kind, segs),
                 "anssweep" if head.len() == 7 => run_sweep::<$C>(head, w as u32, s as u32),
                 _ => "bad-op".into(),
             }
@@ -727,8 +811,10 @@ pub fn gen_history(rng: &mut Rng, w: u32, s: u32, bps: &[(u32, Vec<u32>)], maxle
             26 => "getb".into(),
             27 => "iter".into(),
             28 => (*rng.pick(&["nw", "nb", "nvb", "empty"])).into(),
-            29 => "clone".into(),
-            30 => "pos".into(),
+            29 => (*rng.pick(&["clone", "clone", "intovec", "maybefull", "mexh", "clear"])).into(),
+            30 => if rng.chance(1, 2) { "pos".into() } else {
+                format!("{} {:x} {:x} {} {:x}", if rng.chance(1, 2) { "asdec" } else { "intodec" }, b, p, show_list(cdf.clone()), rng.next() % 4)
+            },
             _ => "raw".into(),
         };
         line.push_str(" | ");
@@ -764,7 +850,7 @@ fn gen_cursor_line(rng: &mut Rng, w: u32, s: u32, bps: &[(u32, Vec<u32>)]) -> St
             }
             7 => format!("encnone {:x} {:x}", b, p),
             8..=9 => format!("dec {:x} {:x} {}", b, p, show_list(cdf.clone())),
-            10 => (*rng.pick(&["pos", "getc", "getc", "getb", "nw"])).into(),
+            10 => (*rng.pick(&["pos", "getc", "getc", "getb", "nw", "export", "intob"])).into(),
             _ => "raw".into(),
         };
         line.push_str(" | ");
@@ -808,10 +894,10 @@ fn gen_seekdec_line(rng: &mut Rng, w: u32, s: u32, bps: &[(u32, Vec<u32>)]) -> S
 }
 
 fn gen_glue_line(rng: &mut Rng, w: u32, s: u32, bps: &[(u32, Vec<u32>)]) -> String {
-    let kind = *rng.pick(&["ansr", "ansi", "ansb"]);
+    let kind = *rng.pick(&["ansr", "ansi", "ansb", "anss", "ansrb", "ansib"]);
     let n = (rng.next() % 7) as usize;
     let mut ws = gen_words(rng, w, n);
-    if kind != "ansb" && rng.chance(7, 8) {
+    if (kind == "ansr" || kind == "ansi") && rng.chance(7, 8) {
         // reversed data: the *first* word is the top of the stack and must not be zero
         if let Some(f) = ws.first_mut() {
             if *f == 0 {
